@@ -1,0 +1,16 @@
+// SPDX-FileCopyrightText: 2026 The Pion community <https://pion.ly>
+// SPDX-License-Identifier: MIT
+
+//go:build verif
+
+package verifhooks
+
+import (
+	"github.com/pion/interceptor/internal/rtpbuffer"
+	"github.com/pion/rtp"
+)
+
+// NewPacketFactoryCopySeq is rtpbuffer.NewPacketFactoryCopy with a fixed RTX sequencer.
+func NewPacketFactoryCopySeq(rtxSequencer rtp.Sequencer) *PacketFactoryCopy {
+	return rtpbuffer.VerifNewPacketFactoryCopy(rtxSequencer)
+}
